@@ -89,11 +89,14 @@ def scenarios():
                                                 [{"op": "solve", "e": 1, "r": 2, "goal": C("p", V(0)), "qnv": 1, "k": 0}],
                                                 [{"op": "solve", "e": 1, "r": 3, "goal": C("twice", V(0), V(1)), "qnv": 2, "k": 0}]]})
     # 4. assert_fact from Python with live variables of a suspended query, then the query moves on / ends
-    script = {"b/2": [clause(C("b", A("a"), C("h", V(0))), call(C("=", V(0), I(1)))), clause(C("b", A("b"), C("h", I(2))))]}
+    script = {"b/2": [clause(C("b", A("a"), C("h", V(0))), call(C("=", V(0), I(1)))), clause(C("b", A("b"), C("h", I(2))))],
+              # variables bound through chains of two and three links, in both directions
+              "ch/2": [clause(C("ch", V(0), V(1)), conj(call(C("=", V(0), V(1))), call(C("=", V(1), V(2))), call(C("=", V(2), A("tom"))))),
+                       clause(C("ch", V(0), V(1)), conj(call(C("=", V(2), V(1))), call(C("=", V(0), V(2))), call(C("=", V(1), C("k", V(3)))), call(C("=", V(3), A("z")))))]}
     for T in (C("p", V(0)), C("p", C("f", V(0), V(1))), C("p", V(1), V(0)), C("p", lst([V(0)], V(1)))):
         for atEnd in (True, False):
             steps = [[{"op": "load", "e": 1, "script": "P", "ow": True}],
-                     [{"op": "query", "e": 1, "r": 1, "goal": C("b", V(0), V(1)), "qnv": 2}],
+                     [{"op": "query", "e": 1, "r": 1, "goal": C("b", V(0), V(1)), "qnv": 2}, {"op": "query", "e": 1, "r": 1, "goal": C("ch", V(0), V(1)), "qnv": 2}],
                      [{"op": "assert", "e": 1, "term": T, "atEnd": atEnd, "r": 1}, {"op": "next", "r": 1}],
                      [{"op": "assert", "e": 1, "term": T, "atEnd": atEnd, "r": 1}, {"op": "next", "r": 1}],
                      [{"op": "assert", "e": 1, "term": T, "atEnd": atEnd, "r": 1}, {"op": "next", "r": 1}, {"op": "close", "r": 1, "how": "close"}],
